@@ -9,6 +9,7 @@ from vcheck import Case
 import tgen
 import c04_util as U
 import c04_extra as X
+import c04_w3 as W
 
 PROP = "C04"
 LEVEL = "proof"
@@ -24,21 +25,31 @@ RULE = ("a case is a HISTORY of 1-12 reads/writes applied to a dense and a spars
         "scalar, 0, value arrays mixing 0 and non-0, exactly shaped arrays/tensors; growth of extent and order. The input classes of "
         "the REPAIRED findings (A-13, A-14, A-15, A-17, C04-N01..N03, N05..N07) are part of the ordinary streams, get a dedicated "
         "stream each and their exact former witnesses are replayed as ordinary cases (a regression is a violation); only the classes "
-        "of the OPEN findings (A-16, C04-N04; C04-N08/N09 on sptenmat) are kept out of the unattributed streams. Extra streams: "
-        "np_adv (one read or scalar write through a key with index lists on a dense tensor: numpy's zipped selection or the outer "
+        "of the OPEN findings (A-16, C04-N04, C04-N11 repeated index in a sptensor region read, C04-N15 repeated index + sptensor operand whose winning value "
+        "is a zero or whose stored order is not its position order; C04-N14 on sptenmat) are kept out of the unattributed "
+        "streams (C04-N08/N09/N10/N12/N13 are repaired: ordinary inputs + regression witnesses). Extra streams: "
+        "w3 (start states built from C-ordered / non-contiguous / no-copy data, by computations and by reads; right-hand sides as C-ordered, "
+        "non-contiguous, integer arrays, lists, tensors / sptensors in other layouts and stored orders, numpy scalars, and the object returned "
+        "by the read just before: v = X[src]; X[dst] = v), key lists that REPEAT an index (reads, scalar / zero / value-array writes, empty "
+        "and non-empty receivers), np_adv (one read or scalar write through a key with index lists on a dense tensor: numpy's zipped selection or the outer "
         "product, nothing else), tenmat_rw and sptenmat_set (histories on a matricised tensor: 2-way array of fixed shape; "
         "out-of-range requests must raise). non-trivial = at least one write and one nonzero somewhere (np_adv: key in the A-16 "
         "class); distinct = distinct history")
 CORRESPONDENCE_ONLY = [
-    "tenmat.__getitem__/__setitem__ and sptenmat.__setitem__ (executable specification = the C04 dense/sparse step on a 2-way array of "
-    "fixed shape, Model/C04Extra.v; no separate theorem: the step functions are the ones of the refinement theorems)",
     "dense keys of the A-16 class with a VALUE-ARRAY right-hand side (numpy broadcasting of the value against the zipped selection is "
     "not modelled; reads and scalar writes are: np_adv_get / np_adv_set_scalar)",
-    "C04-N04 class (sparse tensor right-hand side through stepped / negative slices): pyttb's as-is tt_irenumber is not modelled; the "
-    "model is the correct behaviour and the class is attributed to the open finding",
-    "stored order of a sparse state after a write / of the sptensor returned by a region read: compared raw in every history, not "
-    "part of any theorem (the theorems quantify over every stored order)",
+    "C04-N04 class (sparse tensor right-hand side through stepped / negative slices): pyttb's as-is tt_irenumber is not modelled here "
+    "(the translator builder states its as-is behaviour over Gen/GenUtils3.v in Props/W3C04.v); the model is the correct behaviour and "
+    "the class is attributed to the open finding",
+    "stored order of a sparse state after a write / of the sptensor returned by a region read: compared raw in the plain histories, by "
+    "denotation + well-formedness (check_sparse_den, stepping the model from the observed state) in histories whose order is not pinned "
+    "(computed start states, sptensor right-hand sides in arbitrary order, repeated indices); not part of any theorem (the theorems "
+    "quantify over every stored order)",
+    "how a start state is built (C-ordered / non-contiguous data, no-copy, results of computations and reads) and in which memory layout a "
+    "right-hand side arrives: the model has no notion of layout; the streams check that none of it is observable",
     "rejection of inadmissible requests (dense linear assignment at or beyond prod(shape), out-of-range (sp)tenmat subscripts)",
+    "the mode split of a (sp)tenmat (which tensor entry a matrix entry is): the C04 theorems treat the matrix as a 2-way array; the "
+    "streams check that rdims / cdims / tshape are untouched by entry access",
 ]
 ASSUMPTIONS = [
     "resolve_get/resolve_set (Python slice.indices semantics, negative indices, F-order linear indices, Cartesian regions) are the "
@@ -46,8 +57,9 @@ ASSUMPTIONS = [
     "right-hand sides are scalars or exactly shaped (one value per addressed position); numpy broadcasting of other shapes and boolean "
     "masks are outside the theorem",
     "sptensor has no linear assignment (documented): such operations are inadmissible for the sparse class (sparse_op_ok)",
-    "region writes on the sparse side: an index list inside a key does not repeat an index (elem_nodup; a repeated index addresses a "
-    "position twice, sptensor has no defined meaning for it)",
+    "an index repeated inside a key list addresses its positions once per repetition; reads return them repeatedly, a value-array "
+    "write keeps the LAST value per position (numpy's behaviour on the dense side; the specification spec_set is sequential); the "
+    "former hypothesis elem_nodup of the sparse region-write theorems is gone (wave 3)",
     "np_adv_positions (Model/C04Extra.v) as the meaning numpy gives to a key with index lists: validated against pyttb/numpy on the "
     "np_adv stream, not proved against numpy's C code",
 ]
@@ -121,7 +133,10 @@ def _gen_region_key(rng, shape, for_set, grow, a16=False):
             es.append(["i", z])
         elif k == list_at:
             m = rng.randint(2, max(2, min(d, 3))) if d >= 2 else 1
-            es.append(["l", rng.sample(range(d), min(m, d))])
+            l = rng.sample(range(d), min(m, d))
+            if rng.random() < 0.3:          # an index named twice (adjacent or not)
+                l.insert(rng.randint(0, len(l)), rng.choice(l))
+            es.append(["l", l])
         else:
             es.append(_gen_slice(rng, d, for_set))
     if a16 and n >= 2:
@@ -310,6 +325,28 @@ def gen_history(rng, classes, profile, length):
     return Case("history", {"start": start, "ops": ops, "classes": classes}, nt, {"profile": profile})
 
 
+def gen_w3_history(rng, classes):
+    """a history decorated with the wave-3 input classes (c04_w3): how the start state is built, in which layout the
+    right-hand sides arrive, values that are the object returned by the read just before"""
+    c = gen_history(rng, classes, "dense" if classes == ["dense"] else "joint", rng.randint(1, 10))
+    if c is None:
+        return None
+    a = c.args
+    mk = {}
+    if a["start"]["shape"]:
+        if "dense" in classes and rng.random() < 0.75:
+            mk["dense"] = rng.choice(W.DENSE_MK)
+        if "sparse" in classes and rng.random() < 0.75:
+            mk["sparse"] = rng.choice(W.SPARSE_MK)
+    if mk:
+        a["mk"] = mk
+    W.scalars_to_values(rng, a, _val)
+    W.add_reuse(rng, a)
+    W.add_prev(rng, a, p=0.3)
+    W.add_variants(rng, a)
+    return Case("history", a, c.nontrivial, {"profile": "w3"})
+
+
 def defect_case(rng, fid):
     """short history ending in the input class of finding fid"""
     for _ in range(200):
@@ -388,6 +425,31 @@ def defect_case(rng, fid):
             if "C04-N06" in U.class_hits(st1, op, classes) and not U.op_triggers(st1, op, classes):
                 return Case("history", {"start": start, "ops": ops, "classes": classes}, True, {"profile": profile})
             continue
+        elif fid in ("C04-N10", "C04-N11", "C04-N12", "C04-N13", "C04-N15"):
+            classes = ["sparse"]
+            if fid == "C04-N10":
+                start = gen_start(rng, "zero")
+                st = U.start_state(start)
+                shape, f = st
+                n = len(shape)
+            k = rng.randrange(n)
+            x = rng.randrange(shape[k])
+            l = [x, x] if shape[k] == 1 or rng.random() < 0.4 else rng.sample([x, x, rng.randrange(shape[k])], 3)
+            es = [["l", l] if j == k else rng.choice([["i", rng.randrange(d)], ["s", None, None, None], ["s", 0, d, None]])
+                  for j, d in enumerate(shape)]
+            key = ["region", es]
+            if U.key_is_a16(key):
+                continue
+            if fid == "C04-N11":
+                op = ["get", key]
+            elif fid in ("C04-N13", "C04-N15"):
+                try:
+                    _, asg = U.resolve_set(shape, key, ["scalar", 1])
+                except U.Inadmissible:
+                    continue
+                op = ["set", key, ["values", [_val(rng, 0.5 if fid == "C04-N15" else 0.3) for _ in asg]]]
+            else:
+                op = ["set", key, ["scalar", _val(rng)]]
         elif fid == "A-17":
             op = ["set", ["lin", cells + rng.choice([0, 0, 1, 3])], ["scalar", _val(rng)]]
         if op is None:
@@ -425,6 +487,12 @@ def gen_cases(rng, tier):
         c = gen_history(rng, ["sparse"], "joint", rng.randint(1, 12))
         if c:
             cases.append(c)
+    # wave 3: start states / right-hand sides in other memory layouts, results of earlier computations and reads
+    for classes, cnt in ((["dense", "sparse"], 1500 if big else 150), (["dense"], 600 if big else 60), (["sparse"], 400 if big else 40)):
+        for _ in range(cnt):
+            c = gen_w3_history(rng, classes)
+            if c:
+                cases.append(c)
     cases.extend(X.gen_cases_extra(rng, tier, _gen_slice, _val))
     for fid, a in REGRESSION_ARGS.items():
         cases.append(Case("history", copy.deepcopy(a), True, {"profile": "regression:" + fid}))
@@ -439,9 +507,13 @@ def gen_cases(rng, tier):
 # ------------------------------------------------------------------------------------------------
 # pyttb runner
 # ------------------------------------------------------------------------------------------------
-def _mk(ttb, np, cls, start):
+def _mk(ttb, np, cls, start, variant=None):
     if not start["shape"]:
         return ttb.tensor() if cls == "dense" else ttb.sptensor()
+    if variant and variant != "plain":
+        Y = W.mk_dense(ttb, np, start, variant) if cls == "dense" else W.mk_sparse(ttb, np, start, variant)
+        if Y is not None:
+            return Y
     if cls == "dense":
         return tgen.mk_tensor(ttb, np, start["shape"], start["data"])
     return tgen.mk_sptensor(ttb, np, start["shape"], start["subs"], start["vals"])
@@ -464,7 +536,13 @@ def _obs_out(ttb, np, a):
     return ["vals", [tgen.exact(x) for x in arr.ravel(order="F")]]
 
 
-def _py_rhs(ttb, np, cls, shape_now, key, rhs, k):
+def _py_rhs(ttb, np, cls, shape_now, key, rhs, k, variant=None, last=None):
+    if variant == "prev" and W.prev_usable(np, ttb, cls, shape_now, key, rhs, last):
+        return last[0]
+    if variant and variant != "prev":
+        v = W.py_rhs(ttb, np, cls, shape_now, key, rhs, variant)
+        if v is not None:
+            return v
     if rhs[0] == "scalar":
         return float(rhs[1])
     vals = [float(v) for v in rhs[1]]
@@ -481,22 +559,46 @@ def _py_rhs(ttb, np, cls, shape_now, key, rhs, k):
     return vals if k % 2 == 0 else np.array(vals, dtype=float)
 
 
-def run_class(ttb, np, cls, args):
+def run_class(ttb, np, cls, args, start_out=None):
     import warnings
-    X = _mk(ttb, np, cls, args["start"])
+    with warnings.catch_warnings():
+        warnings.simplefilter("ignore")
+        X = _mk(ttb, np, cls, args["start"], (args.get("mk") or {}).get(cls))
+    if start_out is not None:
+        try:
+            start_out[cls] = _obs_state(np, cls, X)
+        except Exception as ex:      # noqa: BLE001
+            start_out[cls] = {"broken": type(ex).__name__ + ": " + str(ex)[:120]}
     steps = []
+    last = None
+    last_rhs = None
     for k, op in enumerate(args["ops"]):
         out = None
         exc = None
+        rhs_changed = None
         try:
             with warnings.catch_warnings():
                 warnings.simplefilter("ignore")
                 pk = U.py_key(np, copy.deepcopy(op[1]), as_array=(k % 2 == 1))
                 if op[0] == "get":
-                    out = _obs_out(ttb, np, X[pk])
+                    res = X[pk]
+                    out = _obs_out(ttb, np, res)
+                    last = (res, out)
                 else:
-                    X[pk] = _py_rhs(ttb, np, cls, X.shape, op[1], op[2], k)
+                    rv = W.variant_of(op, cls)
+                    if rv == "reuse" and last_rhs is not None and last_rhs[1] == op[2] and last_rhs[2] == W.kept_or_none(X.shape, op[1]):
+                        val = last_rhs[0]              # the very same operand object as in the write before
+                    else:
+                        val = _py_rhs(ttb, np, cls, X.shape, op[1], op[2], k, rv, last)
+                    snap = W.snapshot(ttb, np, val)
+                    last_rhs = (val, op[2], W.kept_or_none(X.shape, op[1]))
+                    try:
+                        X[pk] = val
+                    finally:
+                        if W.snapshot(ttb, np, val) != snap:
+                            rhs_changed = f"{snap} -> {W.snapshot(ttb, np, val)}"
                     out = ["none"]
+                    last = None
         except Exception as ex:      # noqa: BLE001
             exc = type(ex).__name__ + ": " + str(ex)[:120]
         try:
@@ -504,17 +606,25 @@ def run_class(ttb, np, cls, args):
         except Exception as ex:      # noqa: BLE001
             stt = {"broken": type(ex).__name__ + ": " + str(ex)[:120]}
         steps.append({"state": stt, "out": out, "exc": exc})
+        if rhs_changed:
+            steps[-1]["rhs_changed"] = rhs_changed
         if "broken" in stt:
             break
     return steps
 
 
 def run_impl(c):
+    import logging
+    logging.getLogger().setLevel(logging.ERROR)        # "Selected no copy, but input data isn't F ordered" (deliberate inputs)
     if c.op in X.OPS:
         return X.run_extra(c)
     import numpy as np
     import pyttb as ttb
-    return {cls: run_class(ttb, np, cls, c.args) for cls in c.args["classes"]}
+    so = {}
+    o = {cls: run_class(ttb, np, cls, c.args, so) for cls in c.args["classes"]}
+    if c.args.get("mk"):
+        o["start"] = so
+    return o
 
 
 # ------------------------------------------------------------------------------------------------
@@ -544,7 +654,7 @@ def coq_check(c, o):
             return "false"
         for s, op in zip(steps, ops):
             vals = s["state"]["data"] if cls == "dense" else s["state"]["vals"]
-            if not _ints(vals):
+            if not _ints(vals) or s.get("rhs_changed"):
                 return "false"
             if s["out"] and s["out"][0] in ("vals",) and not _ints(s["out"][1]):
                 return "false"
@@ -559,14 +669,26 @@ def coq_check(c, o):
             # a deliberately malformed request must be REJECTED by pyttb itself (AssertionError), not crash inside numpy
             if a.get("malformed") and s["exc"] and not s["exc"].startswith("AssertionError"):
                 return "false"
+        so = (o.get("start") or {}).get(cls)
+        want0 = tgen.gdense(a["start"]["shape"], a["start"]["data"] if a["start"]["shape"] else [])
+        if so is not None:
+            if "broken" in so or not _ints(so["data"] if cls == "dense" else so["vals"]):
+                return "false"
+            if cls == "sparse" and any(x < 0 for r in so["subs"] for x in r):
+                return "false"
         if cls == "dense":
-            st0 = tgen.gdense(a["start"]["shape"], a["start"]["data"] if a["start"]["shape"] else [])
+            st0 = want0
+            if so is not None:
+                parts.append(f"start_dense_ok {_g_dense_state(so)} {want0}")
             obs = "[" + "; ".join(f"({_g_dense_state(s['state'])}, {U.g_xout(None if s['exc'] else s['out'])})" for s in steps) + "]"
             parts.append(f"check_dense {st0} {U.g_ops(ops)} {obs}")
         else:
             st0 = tgen.gsparse(a["start"]["shape"], a["start"]["subs"], a["start"]["vals"])
+            if so is not None:          # the model starts from the raw state pyttb built (any stored order)
+                st0 = _g_sparse_state(so)
+                parts.append(f"start_sparse_ok {st0} {want0}")
             obs = "[" + "; ".join(f"({_g_sparse_state(s['state'])}, {U.g_xout(None if s['exc'] else s['out'])})" for s in steps) + "]"
-            parts.append(f"check_sparse {st0} {U.g_ops(ops)} {obs}")
+            parts.append(f"{'check_sparse_den' if W.order_free(a) else 'check_sparse'} {st0} {U.g_ops(ops)} {obs}")
     return " && ".join(f"({p})" for p in parts)
 
 
@@ -620,6 +742,12 @@ def first_failure(args, obs):
     best = None
     for cls in args["classes"]:
         st = U.start_state(args["start"])
+        so = (obs.get("start") or {}).get(cls)
+        if so is not None:
+            got = _den_of_state(cls, so)
+            if isinstance(got, str) or got != st:
+                return (cls, -1, f"{cls} start state built as '{args['mk'].get(cls)}' is not the intended array: "
+                        f"{got if isinstance(got, str) else so}")
         for k, (op, s) in enumerate(zip(args["ops"], obs[cls])):
             why = None
             try:
@@ -636,6 +764,8 @@ def first_failure(args, obs):
                     why = f"request not rejected by pyttb's own check but failed inside numpy: {s['exc']}"
             elif s["exc"]:
                 why = f"admissible {op[0]} raised {s['exc']}"
+            if why is None and s.get("rhs_changed"):
+                why = "the assignment changed its right-hand-side operand: " + s["rhs_changed"][:200]
             if why is None:
                 got = _den_of_state(cls, s["state"])
                 if isinstance(got, str):
@@ -681,6 +811,15 @@ def shrink(args, fail):
     cur = {"start": args["start"], "ops": args["ops"][:fail[1] + 1], "classes": [cls]}
     if args.get("malformed"):
         cur["malformed"] = True
+    if args.get("mk") and args["mk"].get(cls):
+        cur["mk"] = {cls: args["mk"][cls]}
+        plain = {k_: v_ for k_, v_ in cur.items() if k_ != "mk"}       # does the plain constructor fail as well?
+        try:
+            ffp = first_failure(plain, {cls: run_class(ttb, np, cls, plain)})
+        except Exception:   # noqa: BLE001
+            ffp = None
+        if ffp is not None and ffp[1] == fail[1]:
+            cur = plain
     # history-independent?  restart from the raw state pyttb was in just before the failing step
     if fail[1] > 0:
         ob = run_class(ttb, np, cls, cur)
@@ -771,6 +910,9 @@ def _simpler_ops(st, op):
         except U.Inadmissible:
             continue
         vs = (list(rhs[1]) + [rhs[1][-1]] * n2)[:n2]
+        if k2[0] == "region" and all(e[0] == "i" for e in k2[1]):       # no kept mode: the value is a scalar
+            out.append(["set", k2, ["scalar", vs[0]]])
+            continue
         if key[0] in ("subs", "linlist") and len(k2[1]) == len(key[1]) - 1:      # drop the value of the dropped row
             j = next(i for i in range(len(key[1])) if key[1][:i] + key[1][i + 1:] == k2[1])
             vs = rhs[1][:j] + rhs[1][j + 1:]
@@ -812,9 +954,12 @@ def oracle(c, o):
     if fail is None:
         # the two classes against each other (property: they remain equal)
         return None
+    if fail[1] < 0:
+        return fail[2]
     try:
         small, ff = shrink(c.args, fail)
-        return f"{(ff or fail)[2]} | minimal history: start={small['start']} ops={small['ops']}"
+        how = f" built as {small['mk']}" if small.get("mk") else ""
+        return f"{(ff or fail)[2]} | minimal history: start={small['start']}{how} ops={small['ops']}"
     except Exception as ex:     # noqa: BLE001
         return fail[2] + f" (shrinking failed: {type(ex).__name__})"
 
@@ -839,6 +984,13 @@ WITNESS_ARGS = {
     "C04-N04": {"start": _S23, "classes": ["sparse"],
                 "ops": [["set", ["region", [["i", 0], ["s", 0, 3, 2]]], ["values", [7, 8]]]]},
 }
+_S32 = {"shape": [3, 2], "data": [0, 3, 0, 4, 0, 5], "subs": [[1, 0], [0, 1], [2, 1]], "vals": [3, 4, 5]}
+WITNESS_ARGS.update({
+    "C04-N11": {"start": _S32, "classes": ["sparse"],
+                "ops": [["get", ["region", [["l", [1, 1]], ["s", None, None, None]]]]]},
+    "C04-N15": {"start": _S32, "classes": ["sparse"],
+                "ops": [["set", ["region", [["l", [1, 1]], ["s", 0, 2, None]]], ["values", [1, 3, 2, 0]]]]},
+})
 WITNESSES = {fid: _witness(a) for fid, a in WITNESS_ARGS.items()}
 WITNESSES.update(X.WITNESSES_EXTRA)
 
@@ -863,4 +1015,11 @@ REGRESSION_ARGS = {
                 "classes": ["sparse"],
                 "ops": [["set", ["region", [["l", [0, 1, 2]], ["s", None, None, None]]], ["values", [7, 0, 0, 8, 9, 0]]]]},
     "A-17": {"start": _S23, "classes": ["dense"], "malformed": True, "ops": [["set", ["lin", 6], ["scalar", 9]]]},
+    "C04-N12": {"start": _S32, "classes": ["sparse"],
+                "ops": [["set", ["region", [["l", [0, 0, 2]], ["i", 1]]], ["scalar", 7]]]},
+    "C04-N13": {"start": _S32, "classes": ["sparse"],
+                "ops": [["set", ["region", [["l", [1, 1]], ["s", 0, 2, None]]], ["values", [1, 3, 2, 4]]]]},
+    "C04-N10": {"start": {"shape": [3, 2], "data": [0] * 6, "subs": [], "vals": []}, "classes": ["sparse"],
+                "ops": [["set", ["region", [["l", [1, 1]], ["s", 0, 2, None]]], ["scalar", 5]],
+                        ["get", ["linslice", None, None, None]]]},
 }
